@@ -188,3 +188,24 @@ pub mod u_sibling_b {
     }
 }
 pub struct mock;
+
+// the dependency is one instantiation of a *generic* entraited trait (bound with type arguments):
+// un-mocking still reaches the function, with the mock object as dependency
+#[entrait(ULoad, mock_api = ULoadMock)]
+fn u_load<T: Default + 'static>(_deps: &impl core::any::Any, _key: u32) -> T {
+    T::default()
+}
+#[entrait(UDescribe, mock_api = UDescribeMock)]
+fn u_describe(deps: &impl ULoad<i32>, key: u32, offset: i32) -> i32 {
+    deps.u_load(key) - offset
+}
+#[entrait(pub UDescribeMod, mock_api = UDescribeModMock)]
+pub mod u_describe_mod {
+    use super::ULoad;
+    pub fn first<D>(deps: &D, key: u32, offset: i32) -> i32
+    where
+        D: ULoad<i32> + ULoad<u8>,
+    {
+        offset
+    }
+}
